@@ -34,7 +34,8 @@ type c15Case struct {
 	TLS    string   `json:"tls"` // none | 1.2 | 1.3
 	Via    string   `json:"via"` // client | direct
 	Script []string `json:"script"`
-	// Prior (direct only): the script of an earlier exchange, on another connection, that used the same smtp.Auth value;
+	// Prior: the script of an earlier exchange, on another connection, that used the same smtp.Auth value (direct) or
+	// the same mail.Client (client);
 	// only the exchange that follows it is judged. What an observer of the earlier exchange knows (its server-final,
 	// the length of its AuthMessage) is available to the forger of the judged one.
 	Prior []string `json:"prior_exchange_with_the_same_auth_value,omitempty"`
@@ -351,6 +352,15 @@ func runC15Case(r *ev.Run, c c15Case) (open bool) {
 		if err != nil {
 			r.HarnessError(err.Error())
 			return false
+		}
+		if len(c.Prior) > 0 {
+			// an earlier dial-up of the same mail.Client (whatever it keeps between dial-ups is kept)
+			pctx, pcancel := context.WithTimeout(context.Background(), 15*time.Second)
+			if cl.DialWithContext(pctx) == nil {
+				_ = cl.Close()
+			}
+			pcancel()
+			r.Count("earlier_dialups_of_the_same_client", 1)
 		}
 		ctx, cancel := context.WithTimeout(context.Background(), 15*time.Second)
 		authErr = cl.DialWithContext(ctx)
@@ -703,9 +713,10 @@ func runC15(r *ev.Run, rep *ev.ReplayDoc) ev.Summary {
 	// valid server-final): every script of up to three messages in the exchange that follows
 	var pcases []c15Case
 	for _, mech := range []string{"SCRAM-SHA-256", "SCRAM-SHA-1"} {
-		for _, prior := range [][]string{{"SF", "J"}, {"SF", "Vk"}, {"SF", "535"}, {"SF", "V", "235"}, {"SF", "E", "J"}} {
+		for _, prior := range [][]string{{"E", "SF", "J"}, {"E", "SF", "Vk"}, {"E", "SF", "535"}, {"E", "SF", "V", "235"}, {"E", "SF", "E", "J"}, {"SF", "J"}} {
 			for _, a := range c15Alphabet {
 				pcases = append(pcases, c15Case{Mech: mech, TLS: "none", Via: "direct", Prior: prior, Script: []string{a, "235"}})
+				pcases = append(pcases, c15Case{Mech: mech, TLS: "none", Via: "client", Prior: prior, Script: []string{a, "235"}})
 				if a == "235" || a == "535" {
 					continue
 				}
